@@ -18,6 +18,8 @@ def jobs(ctx):
     js = []
     for i, sc in enumerate(scenarios(ctx).values()):
         sc.witness = (i < 4) or ctx.tier == 'thorough'
+        if sc.name in THOROUGH:
+            sc.optional = True
         js += e3.make_jobs(ctx, sc)
     js.append(e3.smoke_job(ctx, scenarios(ctx)['mu_w_r_R3']))
     return js
